@@ -5,7 +5,7 @@ import sys
 import threading
 import types
 
-from engine.core import run, enumerate_prefixes
+from engine.core import run, enumerate_prefixes, HarnessLimit
 from engine.ob import Ob
 from engine.sched import Sched, SchedQueue, SchedThread, Deadlock
 
@@ -70,24 +70,62 @@ else:
     STUBBED = False
 
 class LazyQueue(object):
-    """Stands for queue.SimpleQueue wherever logwriter.py creates one (at import, in a default
-    argument, in __init__ ...): a cooperative FIFO bound to whatever scheduler is current when
-    it is used, recording who put what.  All instances are emptied between paths."""
+    """Stands for queue.SimpleQueue / queue.Queue(maxsize) wherever logwriter.py creates one (at
+    import, in a default argument, in __init__ ...): a cooperative FIFO bound to whatever scheduler
+    is current when it is used, recording who put what; with a positive maxsize put() blocks while
+    the queue is full, as queue.Queue does.  All instances are emptied between paths."""
 
     instances = []
     log = None  # the current path's event log
 
-    def __init__(self, *a, **kw):
+    def __init__(self, maxsize=0, *a, **kw):
         self.items = []
+        self.maxsize = maxsize if isinstance(maxsize, int) else 0
+        self.putters = set()
         LazyQueue.instances.append(self)
 
+    def full(self):
+        return self.maxsize > 0 and len(self.items) >= self.maxsize
+
     def would_block(self, worker):
+        if worker in self.putters:
+            return self.full()
         return not self.items
 
     def put(self, item, block=True, timeout=None):
+        from engine.sched import Deadlock, _Kill
+
+        sched = _CURRENT_SCHED[0]
+        w = sched.me() if sched is not None else None
+        while self.full():
+            if not block:
+                raise _queue_module.Full()
+            if LazyQueue.log is not None and isinstance(item, dict):
+                LazyQueue.log.append(("put-blocked", item["id"], w.name if w else None))
+            if w is None:
+                raise Deadlock("scheduler thread would block on a full queue")
+            if sched.abort:
+                raise _Kill()
+            self.putters.add(w)
+            w.blocked_on = self
+            w.pause("blocked on full queue")
+        if w is not None:
+            self.putters.discard(w)
+            w.blocked_on = None
         if isinstance(item, dict) and LazyQueue.log is not None:
             LazyQueue.log.append(("put", item["id"]))
         self.items.append(item)
+
+    def put_nowait(self, item):
+        return self.put(item, block=False)
+
+    def get_nowait(self):
+        if not self.items:
+            raise _queue_module.Empty()
+        return self.items.pop(0)
+
+    def task_done(self):
+        pass
 
     def get(self, block=True, timeout=None):
         from engine.sched import Deadlock, _Kill
@@ -115,16 +153,19 @@ class LazyQueue(object):
 
 import queue as _queue_module  # noqa: E402
 
-_real_simple_queue = _queue_module.SimpleQueue
-_queue_module.SimpleQueue = LazyQueue
+_real_queues = {n: getattr(_queue_module, n) for n in ("SimpleQueue", "Queue")}
+for _n in _real_queues:
+    setattr(_queue_module, _n, LazyQueue)
 try:
     import eliot  # noqa: E402
     from eliot import logwriter  # noqa: E402
     from eliot.logwriter import ThreadedWriter  # noqa: E402
 finally:
-    _queue_module.SimpleQueue = _real_simple_queue
-if hasattr(logwriter, "SimpleQueue"):
-    logwriter.SimpleQueue = LazyQueue
+    for _n, _v in _real_queues.items():
+        setattr(_queue_module, _n, _v)
+for _n in _real_queues:
+    if hasattr(logwriter, _n):
+        setattr(logwriter, _n, LazyQueue)
 
 PROPERTY = "C19"
 NONTRIVIAL_RULE = (
@@ -212,8 +253,8 @@ def body_E1(ctx):
         if sh.get("writers", 1) == 2:
             # a second, idle writer service running at the same time: it must see none of the first one's messages
             second = ThreadedWriter(lambda m: other_got.append(m["id"]), Reactor())
-        if not isinstance(writer._queue, LazyQueue):
-            ctx.fail("harness limitation: ThreadedWriter uses a queue of type %s that the scheduler cannot control" % type(writer._queue).__name__)
+        if getattr(writer, "_queue", None) is not None and not isinstance(writer._queue, LazyQueue):
+            raise HarnessLimit("ThreadedWriter uses a queue of type %s that the scheduler cannot control" % type(writer._queue).__name__)
 
         def producer(p, cycle):
             def work():
@@ -300,6 +341,104 @@ def E1() -> bool:
     return run(body_E1, "X", {})
 
 
+# -- E2: a burst of messages while the wrapped destination is stalled ------------------------------
+BURSTS = [1, 2, 100, 1000, 1001, 2500, 6000]
+
+
+def body_E2(ctx):
+    """'so logging does not block on slow output': while the wrapped destination is stuck inside a
+    write, any number of further writer(msg) calls return without waiting for it, and once the
+    destination moves again everything is written in order before stopService completes."""
+    from engine.sched import SchedLock
+
+    sh = ctx.shard
+    sched = Sched(ctx, watch={LW_FILE: None}, preemptions=0, granularity="call", max_steps=200000)
+    _CURRENT_SCHED[0] = sched
+    log = []
+    K = BURSTS[ctx.choose(len(BURSTS), "burst size")]
+    stall_at = ctx.choose(3, "the destination stalls on its n-th message")
+    fails = ctx.flag("the stalled write finally raises")
+    gate = SchedLock(sched)
+    stalled = SchedQueue(sched)
+
+    def wrapped(msg):
+        me = sched.me()
+        log.append(("written", msg["id"], me.name if me else "scheduler-thread"))
+        if msg["id"] == stall_at:
+            stalled.put(1)
+            gate.acquire()  # slow output: stuck until the main thread opens the gate
+            gate.release()
+            if fails:
+                raise Boom(msg["id"])
+
+    class Reactor(object):
+        def getThreadPool(self):
+            return "pool"
+
+    class NS(object):
+        @staticmethod
+        def Thread(target=None, **kw):
+            return SchedThread(sched, target=target, name="reader")
+
+    saved_threading = logwriter.threading
+    logwriter.threading = NS
+    for q in LazyQueue.instances:
+        del q.items[:]
+        q.putters.clear()
+    LazyQueue.log = log
+    state = {}
+    try:
+        writer = ThreadedWriter(wrapped, Reactor())
+        if getattr(writer, "_queue", None) is not None and not isinstance(writer._queue, LazyQueue):
+            raise HarnessLimit("ThreadedWriter uses a queue of type %s that the scheduler cannot control" % type(writer._queue).__name__)
+
+        def main():
+            gate.acquire()
+            writer.startService()
+            for i in range(stall_at + 1):
+                writer({"id": i})
+            stalled.get()  # the reader is now inside the stuck write
+            state["phase"] = "burst"
+            for i in range(stall_at + 1, stall_at + 1 + K):
+                writer({"id": i})
+                state["returned"] = i
+            state["phase"] = "burst-done"
+            gate.release()
+            h = writer.stopService()
+            h.thread.join()
+            state["stopped"] = (h.done, writer._thread.is_alive())
+
+        sched.spawn(main, "main")
+        try:
+            sched.run()
+        except Deadlock as e:
+            if state.get("phase") == "burst":
+                ctx.fail("logging blocked on slow output: with the destination stuck in a write, call number %d of a burst of %d writer(msg) calls did not return (%s)" % (state.get("returned", stall_at) - stall_at + 1, K, e))
+            ctx.fail("%s; events %r" % (e, log[-12:]))
+    finally:
+        logwriter.threading = saved_threading
+        _CURRENT_SCHED[0] = None
+    for w in sched.workers:
+        ctx.check(w.exc is None, "thread %s died with %r", w.name, w.exc)
+    blocked = [e for e in log if e[0] == "put-blocked"]
+    ctx.check(not blocked, "a writer(msg) call waited for the slow destination: %r", blocked[:3])
+    written = [e[1] for e in log if e[0] == "written"]
+    ctx.check(written == list(range(stall_at + 1 + K)), "after a burst of %d messages behind a stalled write the destination got %d messages, first difference at %r", K, len(written), next((i for i, (a, b) in enumerate(zip(written, range(stall_at + 1 + K))) if a != b), min(len(written), stall_at + 1 + K)))
+    ctx.check(all(e[2] == "reader" for e in log if e[0] == "written"), "destination called off the reader thread")
+    ctx.check(state.get("stopped") == (True, False), "stop handle / reader state after the burst: %r", state.get("stopped"))
+    ctx.nontrivial((K, stall_at, fails))
+    if K > 1000:
+        ctx.reached("large-burst")
+    ctx.sample({"burst": K, "stall_at": stall_at, "stalled_write_raises": fails, "written": len(written)})
+
+
+def E2() -> bool:
+    """
+    post: _
+    """
+    return run(body_E2, "X", {})
+
+
 def _shards(tier):
     if tier == "quick":
         cfgs = [{"producers": 1, "msgs": 2, "P": 2, "F": 1}, {"producers": 0, "msgs": 2, "P": 1, "F": 0, "writers": 2}]
@@ -311,8 +450,15 @@ def _shards(tier):
     return out
 
 
+OBLIGATIONS_TAIL = [
+    Ob("E2", E2, body_E2, "X", desc="a burst of writer(msg) calls while the wrapped destination is stuck inside a write: every call returns, nothing is lost or reordered", functions=["ThreadedWriter.__call__", "_reader", "stopService"],
+       twin=[{"twin_label": "large-burst"}], timeout={"quick": 100, "thorough": 300},
+       bounds={"quick": "burst sizes {1, 2, 100, 1000, 1001, 2500, 6000} behind a write stalled on the 1st/2nd/3rd message, which then returns or raises; forced switches only (call granularity)"}),
+]
+
 OBLIGATIONS = [
     Ob("E1", E1, body_E1, "X", desc="producers / reader / stop request at line granularity in logwriter.py with destination failure masks", functions=["ThreadedWriter.__init__", "startService", "stopService", "__call__", "_reader"],
        shards=_shards, twin=[{"producers": 1, "msgs": 2, "P": 2, "F": 1, "twin_label": "failure-then-more"}, {"producers": 1, "msgs": 2, "P": 2, "F": 1, "twin_label": "offered-before-stop"}], timeout={"quick": 100, "thorough": 1500},
        bounds={"quick": "1 producer x 2 messages racing the stop request and the reader, <= 2 preemptions, <= 1 destination failure; the same with a second idle ThreadedWriter running (<= 1 preemption)", "thorough": "<= 3 preemptions / 2 failures; 2 producers x 1 message; a second start/stop cycle"}),
 ]
+OBLIGATIONS += OBLIGATIONS_TAIL
